@@ -49,6 +49,7 @@ class Engine:
         self.model_classes = {}
         self.hooks = {}                 # name -> callable(engine, st, ...) extension points (cut points, call-outs)
         self.active_contract = None
+        self.nofeas = False
         self.class_aliases = {}
         self.ghost_types = {}
         from . import heapmodel as _h
@@ -203,8 +204,11 @@ class Engine:
         if z3.is_false(cond):
             return [(st, False)]
         out = []
-        t_ok = smt.feasible(st.pc, cond)
-        f_ok = smt.feasible(st.pc, z3.Not(cond))
+        if self.nofeas:
+            t_ok = f_ok = True
+        else:
+            t_ok = smt.feasible(st.pc, cond)
+            f_ok = smt.feasible(st.pc, z3.Not(cond))
         if t_ok and f_ok:
             s2 = st.clone()
             st.assume(cond)
